@@ -34,6 +34,11 @@ theorem runTask_skeleton :
          "prompt", "hook:promptFail", "hook:promptErr", "mkdir"]
         ["runDeps", "hook:depsDone", "hook:depsDone", "hook:ctxErr", "preconditions", "hook:precondFail", "isUpToDate",
          "hook:upToDate", "prompt", "hook:promptFail", "hook:promptFail", "hook:promptErr", "mkdir"]
+        RunTask = true ∧
+    -- the per-CALL guards (platform, required variables, allowed values) are evaluated for every call,
+    -- before the call is counted, takes a slot or can be deduplicated against a running execution
+    chk ["fastCompile", "platform", "requiredVars", "compile", "allowedValues", "countCall", "acquire", "startExecution", "closure{"]
+        ["fastCompile", "platform", "requiredVars", "compile", "allowedValues", "countCall", "acquire", "startExecution", "closure{"]
         RunTask = true := by decide
 
 /-- `RunTask`, the status rule (C03; after the fix of `C03-dedup-waiter-status`): inside the
